@@ -14,8 +14,8 @@ def queries(tier):
     for op in OPS:
         if op == "RESIZE" and tier == "quick":
             continue   # heap-backed store + realloc: needs > 8 GB; thorough tier only
-        if tier == "quick" and op in ("ALIGN", "STRING", "MEMREV", "RESIZE"):
-            maxq = 4
+        if op in ("ALIGN", "STRING", "MEMREV", "RESIZE"):
+            maxq = 4 if tier == "quick" else 5   # 1024-byte scratch arrays of mpt_memrev dominate the cost
         qs.append(Q("q_" + op.lower(), "C13/qop.c", units=QU,
                     harness_defines={"OP": "OP_" + op, "MAXQ": (4 if op == "RESIZE" else maxq)},
                     unwind_default=maxq + 6, fp_default=["find_cmp"],
